@@ -93,6 +93,11 @@ def run(ctx):
                "%s::rdlen(compress = true) announces a length although compose_rdata compresses %s on a compressing "
                "target: the advertised RDLENGTH differs from the octets written" % (adt.split("::")[-1], names), where=rb.where())
     rule_fwd(ctx, F)
+    # the reader of a variable-layout field accepts exactly what its writer can produce (shared rules)
+    import c01
+    import c11
+    c01.rule_window(ctx, F)     # NSEC/NSEC3 type bitmap: every window of 1..=32 bitmap octets, nothing else
+    c11.rule_time48(ctx, F)     # TSIG 48-bit times: into_octets and from_slice use the same bit layout
 
 
 PUSHERS = [
